@@ -81,6 +81,11 @@ M = [
  ('C09-d', 'C09', 'backends/gdb_plugin/extract.py', "    message = extract_message(closure, object, False, new_id_is_actually_an_object)", "    message = extract_message(closure, object, True, new_id_is_actually_an_object)", 1),
  ('C09-e', 'C09', 'backends/gdb_plugin/extract.py', "        # Client connection\n        new_id_is_actually_an_object = True", "        # Client connection\n        new_id_is_actually_an_object = False", 1),
  ('C09-f', 'C09', 'backends/gdb_plugin/extract.py', "    return 'gdb_conn:' + hex(int(connection))", "    return 'gdb_conn:' + hex(int(connection) & 0xfff)", 1),
+ ('C10-e', 'C10', 'backends/gdb_plugin/plugin.py', "        self.plugin.process_message(connection_id, message)\n        return self.plugin.paused()", "        self.plugin.process_message(connection_id, message)\n        return not self.plugin.paused()", 1),
+ ('C10-f', 'C10', 'backends/gdb_plugin/plugin.py', "        self.plugin.invoke_command(self.command + ' ' + arg)", "        self.plugin.invoke_command(self.command + arg)", 1),
+ ('C10-g', 'C10', 'backends/gdb_plugin/plugin.py', "        connection_id, message = self.message_extractor()\n        self.plugin.process_message(connection_id, message)\n        return self.plugin.paused()", "        connection_id, message = self.message_extractor()\n        paused = self.plugin.paused()\n        self.plugin.process_message(connection_id, message)\n        return paused", 1),
+ ('C15-b', 'C15', 'backends/gdb_plugin/plugin.py', "        self.plugin.close_connection(connection_id)\n        return False", "        self.plugin.close_connection(connection_id)\n        return True", 1),
+ ('C15-c', 'C15', 'backends/gdb_plugin/plugin.py', "        connection = gdb.selected_frame().read_var('connection')\n        connection_id = extract.connection_id_of(connection)\n        self.plugin.close_connection(connection_id)", "        connection = gdb.selected_frame().read_var('connection')\n        connection_id = extract.connection_id_of(connection)", 1),
  ('C16-a', 'C16', 'frontends/tui/controller.py', 'if delta > 1.0:', 'if delta >= 1.0:', 1),
  ('C16-b', 'C16', 'frontends/tui/controller.py', "                ')')\n            self.last_shown_timestamp = None", "                ')')", 1),
  ('C06-a', 'C06', 'frontends/tui/controller.py', 'if self.current_connection is None or connection == self.current_connection:', 'if True:', 1),
